@@ -56,6 +56,8 @@ def run(ctx):
             impl_f[line.split(" ", 1)[0]] = line
     f_cmp = f_bad = f_states = 0
     f_viol = []
+    alt_lines = {}
+    l_cmp = []
     e16 = []
     evals = judge_bad = 0
     distinct = set()
@@ -66,6 +68,9 @@ def run(ctx):
         if not line.strip():
             continue
         cid, kv = parse_kv_line(line)
+        if cid.endswith("#F"):
+            alt_lines[cid[:-2]] = line.replace("#F", "", 1)
+            continue
         if cid in flines and flines[cid].startswith("E "):
             # UTF-16 decoder: the model prints the decoder as it should be (dec16) and as unicode.h has it (asis);
             # which one /repo has is decided behaviourally on the lines where the two differ
@@ -76,11 +81,7 @@ def run(ctx):
         if cid in flines:
             f_cmp += 1
             f_states += line.count(";") + 1
-            if impl_f.get(cid) != line:
-                f_bad += 1
-                if len(f_viol) < 3:
-                    f_viol.append({"case": cid, "line": flines[cid], "model": line[:2000], "impl": (impl_f.get(cid) or "")[:2000],
-                                   "correspondence": "TsVerif.Lex.* / TsVerif.Utf.decodeUtf8 vs lib/src/lexer.c, lib/src/unicode.h"})
+            l_cmp.append((cid, line))
             continue
         if "eq" not in kv:
             continue
@@ -115,6 +116,19 @@ def run(ctx):
             if len(f_viol) < 3:
                 f_viol.append({"case": cid, "line": flines[cid], "model": want, "impl": im,
                                "correspondence": "TsVerif.Utf.decodeUtf16 vs lib/src/unicode.h ts_decode_utf16_le/_be"})
+    # the lexer port in two variants (as it is / with fixes/C13-empty-range-boundary.diff): chosen behaviourally on the
+    # scripted runs where the two differ
+    wF = sum(1 for cid, a in l_cmp if cid in alt_lines and impl_f.get(cid) == alt_lines[cid])
+    wA = sum(1 for cid, a in l_cmp if cid in alt_lines and impl_f.get(cid) == a)
+    lex_variant = "fixed" if wF > wA else "asis"
+    ctx.coverage["lexer_empty_range_variant"] = {"chosen": lex_variant, "distinguishing_runs": wF + wA, "fixed_wins": wF, "asis_wins": wA}
+    for cid, a in l_cmp:
+        want = alt_lines.get(cid, a) if lex_variant == "fixed" else a
+        if impl_f.get(cid) != want:
+            f_bad += 1
+            if len(f_viol) < 3:
+                f_viol.append({"case": cid, "line": flines[cid], "model": want[:2000], "impl": (impl_f.get(cid) or "")[:2000],
+                               "correspondence": "TsVerif.Lex.* / TsVerif.Utf.decodeUtf8 vs lib/src/lexer.c, lib/src/unicode.h"})
     for pl in f_viol:
         ctx.violation("corr", "Lean lexer/decoder port and the C code disagree on a scripted run", pl,
                       fingerprint={"level": "function"}, found_input=False)
